@@ -56,7 +56,7 @@ var docPool = map[string][]string{
 	"same":   {"file:///w/a/x.json", "file:///w/a/other.json"},
 	"sub":    {"file:///w/a/s/x.json", "file:///w/a/s/other.json"},
 	"parent": {"file:///w/x.json", "file:///w/other.json"},
-	"cousin": {"file:///w/b/x.json", "file:///w/b/other.json"},
+	"cousin": {"file:///w/b/x.json", "file:///w/b/other.json", "file:///w/a-common/x.json", "file:///w/a.json"},
 	"http":   {"http://h.example/d/x.json", "http://h.example/d/other.json"},
 }
 
@@ -376,7 +376,7 @@ func GenWorld(r *rand.Rand, o WorldOpts) *World {
 		rels = append(rels, "http")
 	}
 	if o.Force != nil && o.Force.Dir != "root" {
-		urls = append(urls, docPool[o.Force.Dir][r.Intn(2)])
+		urls = append(urls, docPool[o.Force.Dir][r.Intn(len(docPool[o.Force.Dir]))])
 	}
 	for len(urls) < o.NDocs {
 		rel := rels[r.Intn(len(rels))]
@@ -436,6 +436,20 @@ func GenWorld(r *rand.Rand, o WorldOpts) *World {
 		doc["definitions"] = defs
 		if r.Intn(3) != 0 || o.Force != nil {
 			ps := map[string]interface{}{}
+			caseTwinRank := 0
+			if o.Chains && r.Intn(2) == 0 {
+				g.rank++
+				caseTwinRank = g.rank // a hop named like p0 up to letter case, ranked before it (references stay forward)
+			}
+			addCaseTwin := func(doc string) {
+				if p0, ok := ps["p0"].(map[string]interface{}); ok && caseTwinRank > 0 {
+					if _, isRef := p0["$ref"]; !isRef && len(p0) > 0 && p0["name"] != nil {
+						ps["P0"] = map[string]interface{}{"$ref": "#/parameters/p0"}
+						g.targets = append(g.targets, &target{doc: doc, toks: []string{"parameters", "P0"}, kind: "parameter", rank: caseTwinRank, top: true, refHolder: true})
+						g.feature("case-variant-chain-hop")
+					}
+				}
+			}
 			for i, n := 0, 1+r.Intn(2); i < n; i++ {
 				g.rank++
 				name := fmt.Sprintf("p%d", i)
@@ -457,6 +471,7 @@ func GenWorld(r *rand.Rand, o WorldOpts) *World {
 				g.targets = append(g.targets, &target{doc: u, toks: toks, kind: "parameter", rank: g.rank, top: true})
 				ps[name] = g.parameter(u, toks, g.rank)
 			}
+			addCaseTwin(u)
 			doc["parameters"] = ps
 		}
 		if r.Intn(3) != 0 || o.Force != nil {
